@@ -159,6 +159,20 @@ Proof. exact base_annotation_flat. Qed.
 Theorem C14_base_annotation_units : forall fo l g, segs_ok fo l = true ->
   read_cgsmiles fo ("{"%char :: segs_str l ++ ["}"%char]) = Ok g -> annotated_as fo g (node_texts (segs_toks l)).
 Proof. exact base_annotation_units. Qed.
+(** what "per copy" means, on {[#A;q=1;foo=bar]([#B;w=2]|2)|3}: copies 2..n of the annotated anchor (nodes 3, 6)
+    carry its charge and free keys *)
+Example C14_base_annotation_units_nonvacuous :
+  let fo := fo_of_table [(S "1", Some (S "1.0")); (S "2", Some (S "2.0"))] in
+  let u := {| u_name := S "A;q=1;foo=bar"; u_mult := None; u_bond := None;
+              u_body := [{| bn_name := S "B;w=2"; bn_mult := Some [2%nat]; bn_bond := None |}];
+              u_ms := None; u_count := [3%nat]; u_after := None |} in
+  segs_ok fo [SUnit u] = true /\
+  segs_str [SUnit u] = S "[#A;q=1;foo=bar]([#B;w=2]|2)|3" /\
+  node_texts (segs_toks [SUnit u]) =
+    [S "A;q=1;foo=bar"; S "B;w=2"; S "B;w=2"; S "A;q=1;foo=bar"; S "B;w=2"; S "B;w=2"; S "A;q=1;foo=bar"; S "B;w=2"; S "B;w=2"] /\
+  exists g, read_cgsmiles fo ("{"%char :: segs_str [SUnit u] ++ ["}"%char]) = Ok g /\
+            node_get g 3 (S "charge") = Some (VFlt (S "1.0")) /\ node_get g 6 (S "foo") = Some (VStr (S "bar")).
+Proof. exact base_annotation_units_example. Qed.
 (** the underlying fact on the token machine (any token list, hence also the longhand of branch multipliers) *)
 Theorem C14_machine_annotations : forall fo ts x, m_run fo ts m_init = Ok x ->
   node_keys (m_g x) = zseq (length (node_texts ts)) /\
